@@ -498,6 +498,40 @@ pub fn run_pass(ctx: &Ctx, report: &Report, fams: &[vpe1::Family], tag: &str, st
         eprintln!("[{}] family {} histories={} canonical={}", if tag.is_empty() { "d1" } else { tag }, f.name, st2.histories.load(Ordering::Relaxed), st2.canonical.load(Ordering::Relaxed));
     }
 
+    // wide calls (mul_add / select / horner_acc_step) with CONSTANT operands: the builder's
+    // folding paths for partly or wholly constant wide calls
+    {
+        use vpe1::enumerate::{AK, Family, VK};
+        let f = Family {
+            name: "wide-k1-atoms-c1".into(),
+            value_kinds: vec![VK::MulAdd, VK::Select, VK::Horner],
+            assert_kinds: vec![AK::Connect],
+            max_value_ops: 1,
+            max_asserts: 1,
+            max_pub: 2,
+            max_priv: 0,
+            consts: vec![0, 1, 2, 3],
+            max_wide: 1,
+            wide_no_atoms: false,
+            sym_reduce: true,
+            stages: vec![],
+            assert_split: None,
+        };
+        let (s2, p2, st2) = (SeenSet::default(), SeenSet::default(), Stats::default());
+        explore::<BabyBear, F>(&f, &cs, ctx, 0.95, &s2, &p2, &st2, &|p, m| {
+            if let Some(fnd) = check_api(p, m, &cs) {
+                record(p, fnd);
+            }
+        }, &|p, _m| {
+            if let Ok(found) = check_program(p, &cs, Some(&cnt), Some(&outcomes)) {
+                for fnd in found {
+                    record(p, fnd);
+                }
+            }
+        });
+        eprintln!("[{}] family {} histories={} canonical={}", if tag.is_empty() { "d1" } else { tag }, f.name, st2.histories.load(Ordering::Relaxed), st2.canonical.load(Ordering::Relaxed));
+    }
+
     for fam in fams {
         let stats = Stats::default();
         // pruning is per family: the subtree below a state depends on the family's bounds
